@@ -704,7 +704,7 @@ func GenExec(t *rapid.T, f Features) *ExecCase {
 	if f.RuntimeArray && g.chance(40, "rta") && !f.off("runtime-array") {
 		et := g.hostType(1)
 		var rt *Var
-		if g.chance(50, "rtast") {
+		if g.chance(50, "rtast") || (f.Hostile && f.off("restrict.bare-runtime-array")) {
 			rs := &Struct{Name: g.name("R"), Members: []*Member{{Name: g.name("m"), T: Scalar(g.numKind())}, {Name: g.name("m"), T: Array(et, 0)}}}
 			g.mod.Decls = append(g.mod.Decls, rs)
 			rt = &Var{Name: "rin", Kind: VStorage, Access: "read", T: StructT(rs), Group: 0, Binding: nextBinding()}
